@@ -712,8 +712,12 @@ def run(ctx):
         "radial pdfs: probes only",
         "floating-point rounding; the special functions themselves",
     ]
-    ctx.tie.update({"analytic spectral_density (8 classes), spectrum, spectral_rad_pdf, ln_spectral_rad_pdf, rad_fac, spectral_rad_cdf, "
-                    "spectral_rad_ppf, has_cdf, has_ppf": "hand model + correspondence",
+    ctx.tie.update({"rad_fac; Gaussian / Exponential spectral_density, spectral_rad_cdf, spectral_rad_ppf; Matern, Integral, JBessel "
+                    "spectral_density": "translated (py2coq, every run) + Coq equality with the hand model (C04_tie_*, no side condition) "
+                                        "+ correspondence",
+                    "HyperSpherical.spectral_density, tpl_exp_spec_dens, tpl_gau_spec_dens (not translatable: AugAssign / recursion / for), "
+                    "spectral_rad_pdf, ln_spectral_rad_pdf, spectrum, len_rescaled / len_low_rescaled plumbing, has_cdf, has_ppf, dist_func":
+                        "hand model + correspondence",
                     "default numerical spectral_density (hankel)": "not modelled: probes only"})
     ok = ctx.proofs("props/C04.v")
     okd, out = C.build_driver("c04")
@@ -727,9 +731,42 @@ def run(ctx):
     else:
         C.log("[C04] driver build failed:\n" + out[-2000:])
     probes(ctx, rng)
-    if not tie_ok and not any(not v["no_input"] for v in ctx.violations):
-        ctx.violation("proof/tie", "props/C04.v or the extraction of the model no longer builds", dict(proofs=ok, driver=okd,
-                      failure=getattr(ctx, "proof_failure", None)), no_input=True)
+    if not tie_ok:
+        what = broken_obligation(ctx)
+        C.log("[C04] " + what)
+        if not any(not v["no_input"] for v in ctx.violations):
+            ctx.violation("proof/tie", what, dict(proofs=ok, driver=okd, failure=getattr(ctx, "proof_failure", None)), no_input=True)
+
+
+def broken_obligation(ctx):
+    """name the lemma that no longer checks (a tie lemma: the formula translated from the source differs from the hand model)"""
+    import re
+    out = (getattr(ctx, "proof_failure", None) or {}).get("output_tail", "")
+    mk = re.search(r"\[Makefile:\d+: (c04/\w+|props/C04)\.vo\] Error", out)
+    if mk and 'File "' not in out:      # the shared code keeps only the tail of make's output: ask coqc for the position
+        try:
+            rc, o2 = C.sh(["timeout", "300", "coqc", "-R", ".", "GS", mk.group(1) + ".v"], cwd=C.COQ, timeout=330)
+            out = o2 + out
+        except Exception:
+            pass
+    ms = list(re.finditer(r'File "\./(c04/\w+\.v|props/C04\.v)", line (\d+), characters [\d-]+:\s*\n?\s*Error', out))
+    m = ms[-1] if ms else None
+    if not m:
+        return "props/C04.v or the extraction of the model no longer builds"
+    f, line = m.group(1), int(m.group(2))
+    name = "?"
+    try:
+        for ln in open(os.path.join(C.COQ, f)).read().split("\n")[:line][::-1]:
+            mm = re.match(r"\s*(Lemma|Theorem|Example|Definition)\s+(\w+)", ln)
+            if mm:
+                name = mm.group(2)
+                break
+    except OSError:
+        pass
+    if f.endswith("C04_Tie.v"):
+        return ("tie broken: %s (coq/%s line %d) no longer proves — the formula py2coq translates from the current source differs from the "
+                "hand model the C04 theorems are about" % (name, f, line))
+    return "proof broken: %s (coq/%s line %d)" % (name, f, line)
 
 
 def replay(ctx, path):
